@@ -92,7 +92,8 @@ func (s *store) Create(key string, sizeBytes uint64) (*File, error) {
 
 func (s *store) reserveSpace(space uint64) bool {
 	// TODO - consider whether it's a worth optimization to check if we can evict enough data BEFORE we start evicting, as to prevent evicting needlessly.
-	for s.size+space > s.capacity {
+	// Compare without adding: s.size+space can wrap around for huge requests.
+	for s.size > s.capacity || space > s.capacity-s.size {
 		if s.evictQueue.Len() == 0 {
 			return false
 		}
